@@ -1,17 +1,23 @@
+import os, sys, importlib
 NOTES = ("Every check: py2v regeneration of coq/gen from /repo's working tree, make of the property's proof cone, "
          "extraction + OCaml model build, correspondence model-vs-implementation, direct oracle on the implementation; "
          "see DESIGN.md. Known findings: known_findings.json.")
 TB = ("Trusted: Coq 8.16.1 kernel (vm_compute, no native_compute); no axioms declared (Print Assumptions recorded in evidence); "
       "py2v translator; ExtrOcamlBasic extraction + OCaml driver; harness. ")
-CHECKS = [
-    {"property_id": "C11",
-     "text": "full: theorems over the Gallina code regenerated from mutagen/_util.py on every run, for every file content, offset, old/new size, "
-             "copy-buffer size >= 1 and both seek flavours: prefix/retained region/suffix preserved, rejects leave the file unmodified; "
-             "the regenerated model is tied to the implementation by an exhaustive small-domain correspondence (bytes, exception class, position)",
-     "note": TB + "Modelled, not verified: the file object semantics (Base.FileModel), tied by correspondence on BytesIO and a real file. "
-             "OS-level behaviour of real files (sparse growth, partial writes) is outside the model (see C19).",
-     "technique": "Coq proof (loop invariants by induction over chunk count) over py2v-generated Gallina + exhaustive correspondence via extracted OCaml model",
-     "design_ref": "DESIGN.md section 5, C11"},
-]
-_PENDING = "machinery for this property is not built yet in this commit (work in progress; see DESIGN.md section 5 for the planned proof)"
-NOT_APPLICABLE = [{"property_id": "C%02d" % i, "reason": _PENDING} for i in range(1, 21) if "C%02d" % i not in {c["property_id"] for c in CHECKS}]
+HERE = os.path.dirname(os.path.abspath(__file__))
+CHECKS = []
+REASONS = {}
+for i in range(1, 21):
+    pid = "C%02d" % i
+    path = os.path.join(HERE, "props", pid.lower() + ".py")
+    if not os.path.exists(path):
+        REASONS[pid] = "machinery for this property is not built yet in this commit (work in progress; DESIGN.md section 5 has the planned proof)"
+        continue
+    mod = importlib.import_module("props." + pid.lower())
+    m = dict(mod.MANIFEST)
+    if m.get("not_applicable"):
+        REASONS[pid] = m["not_applicable"]
+        continue
+    CHECKS.append({"property_id": pid, "text": m["text"], "note": TB + m["note"], "technique": m["technique"],
+                   "design_ref": m.get("design_ref", "DESIGN.md section 5, " + pid)})
+NOT_APPLICABLE = [{"property_id": k, "reason": v} for k, v in sorted(REASONS.items())]
